@@ -225,6 +225,28 @@ func driveWire(c *ctx) {
 			cmp(append(append(append([]byte{}, be32(r)[:]...), be32(s)[:]...), byte(i)), true)
 		}
 	}
+	// every magnitude shape through the builders (round 10): z leading zero bytes (0..31) followed by a byte below / at / above the sign
+	// bit, as r and as s: an encoder that strips zeros by bytes, words or limbs has a different special case at each
+	for z := 0; z < 32; z++ {
+		for _, lead := range []byte{0x01, 0x7f, 0x80, 0xff} {
+			b := randBytes(rng, 32)
+			for i := 0; i < z; i++ {
+				b[i] = 0
+			}
+			b[z] = lead
+			v := new(big.Int).SetBytes(b)
+			if v.Cmp(bigN) >= 0 {
+				v.Rsh(v, 1)
+			}
+			other := add(randBig(rng, add(bigN, -1)), 1)
+			for _, pr := range [][2]*big.Int{{v, other}, {other, v}, {v, v}} {
+				out := secec.BuildASN1Signature(scFrom(pr[0]), scFrom(pr[1]))
+				r2, s2, err := secec.ParseASN1Signature(out)
+				c.E("der.Build", "r", h32(pr[0]), "s", h32(pr[1]), "out", hx(out), "reparsed", err == nil && r2.Equal(scFrom(pr[0])) == 1 && s2.Equal(scFrom(pr[1])) == 1)
+				derParse(out, false)
+			}
+		}
+	}
 	// ---- every single and pairwise structural deviation
 	seqTags := []byte{0x30, 0x31, 0x10, 0xA0}
 	intTags := []byte{0x02, 0x03, 0x82}
